@@ -41,6 +41,9 @@ type probe struct {
 	Src   int    `json:"src"`
 	Proto string `json:"proto"` // tcp | udp | icmp
 	Port  int    `json:"port"`
+	// DelayMs: pause before this probe is sent (a slow scan: never five seconds of silence, but spread over more
+	// than the detector's period)
+	DelayMs int `json:"delay_ms,omitempty"`
 }
 
 func (p probe) pair() string {
@@ -138,6 +141,28 @@ func scenarios(tier string, seed int64) []scenario {
 				}
 			}
 			sc.Probes = append(sc.Probes, p)
+		}
+		out = append(out, sc)
+	}
+	// slow tails: more than a hundred probes at once, then one every 200 ms for six seconds; and the same while
+	// another source's single probe comes due for its report in the middle of it
+	ns := 4
+	if tier == "thorough" {
+		ns = 40
+	}
+	for i := 0; i < ns; i++ {
+		r := core.NewRng(seed, "C20/slow", i)
+		proto := r.PickS([]string{"tcp", "udp"})
+		sc := scenario{Sources: 1 + i%2, Kind: "slow-tail"}
+		if sc.Sources == 2 {
+			sc.Probes = append(sc.Probes, probe{Src: 1, Proto: proto, Port: 7})
+		}
+		n0 := r.Range(105, 140)
+		for j := 0; j < n0; j++ {
+			sc.Probes = append(sc.Probes, probe{Src: 0, Proto: proto, Port: 1024 + j})
+		}
+		for j := 0; j < 30; j++ {
+			sc.Probes = append(sc.Probes, probe{Src: 0, Proto: proto, Port: 3000 + j, DelayMs: 200})
 		}
 		out = append(out, sc)
 	}
@@ -273,6 +298,9 @@ func runScan(k int, sc scenario) scnObs {
 	// detector's quiet period has passed (or 16 s)
 	burst := func(probes []probe, seq0, skip int) {
 		for i, p := range probes {
+			if p.DelayMs > 0 {
+				time.Sleep(time.Duration(p.DelayMs) * time.Millisecond)
+			}
 			h.Write(frame(k, p, seq0+i))
 		}
 		want := map[string]bool{}
